@@ -6,6 +6,7 @@
 import PyTough.Proofs.T2DataFile
 import PyTough.Proofs.T2DataGener
 import PyTough.Proofs.T2DataParam
+import PyTough.Proofs.T2DataRocks
 namespace Proofs.T2
 open Py Model Model.T2 Proofs Proofs.Incon
 open Gen.Sections (Rec)
@@ -119,6 +120,25 @@ theorem gener_shape (T : Tabs) (hT : T = mainTabs ∨ T = xpTabs) :
     exact ⟨by decide +kernel, t.1, r.1, e.1, ⟨by decide +kernel, by decide +kernel,
       ⟨by decide +kernel, by decide +kernel, by decide +kernel⟩, ⟨by decide +kernel, by decide +kernel, by decide +kernel⟩,
       by decide +kernel, by decide +kernel, by decide +kernel, t.2, r.2, e.2⟩⟩
+
+theorem rp_shape (T : Tabs) (hT : T = mainTabs ∨ T = xpTabs) (n : Str)
+    (hn : n = c!"relative_permeability" ∨ n = c!"capillarity" ∨ n = c!"rocks1.2" ∨ n = c!"rocks1.3") :
+    T.get n = .ok (recOf T n) ∧ RPShape (recOf T n) (fieldAt T n 0) (fieldAt T n 1) (fieldAt T n 2) := by
+  rcases hT with rfl | rfl <;> rcases hn with rfl | rfl | rfl | rfl <;>
+    exact ⟨by decide +kernel, ⟨by decide +kernel, by decide +kernel, by decide +kernel, by decide +kernel⟩⟩
+
+theorem rock_shape (T : Tabs) (hT : T = mainTabs ∨ T = xpTabs) :
+    T.get c!"rocks1" = .ok (recOf T c!"rocks1") ∧ T.get c!"rocks1.1" = .ok (recOf T c!"rocks1.1") ∧
+    T.get c!"rocks1.2" = .ok (recOf T c!"rocks1.2") ∧ T.get c!"rocks1.3" = .ok (recOf T c!"rocks1.3") ∧
+    RockShape (recOf T c!"rocks1") (recOf T c!"rocks1.1") (recOf T c!"rocks1.2") (recOf T c!"rocks1.3")
+      (fieldAt T c!"rocks1" 0) (fieldAt T c!"rocks1" 1) (fieldAt T c!"rocks1" 2) (fieldAt T c!"rocks1" 3)
+      (fieldAt T c!"rocks1" 4) (fieldAt T c!"rocks1" 5) (fieldAt T c!"rocks1" 6) (fieldAt T c!"rocks1" 7)
+      (fieldAt T c!"rocks1" 8) (fieldAt T c!"rocks1.2" 0) (fieldAt T c!"rocks1.2" 1) (fieldAt T c!"rocks1.2" 2) := by
+  have h12 := rp_shape T hT c!"rocks1.2" (by simp)
+  rcases hT with rfl | rfl <;>
+    exact ⟨by decide +kernel, by decide +kernel, h12.1, by decide +kernel,
+      ⟨by decide +kernel, ⟨by decide +kernel, by decide +kernel, by decide +kernel⟩, by decide +kernel,
+       recWFb_spec (by decide +kernel), h12.2, by decide +kernel⟩⟩
 
 /-! ### keyword → reader / writer dispatch as it is in /repo -/
 
